@@ -186,10 +186,17 @@ def clobber_case(sc):
     elif sc.get("same"):
         for n in pre:
             (d / n).write_bytes((Path(ref["dir"]) / "out" / n).read_bytes())
+    elif sc.get("dangling"):
+        # the pre-existing output paths are symbolic links whose targets are gone (outputs once linked into a scratch area since purged)
+        (d / "gone").mkdir()
+        for n in pre:
+            os.symlink(d / "gone" / ("target-of-" + n), d / n)
     else:
         for n in pre:
             (d / n).write_bytes(junk)
     before = snapshot(d)
+    if sc.get("dangling"):
+        before = {n: "dangling-link" for n in pre}
     args = ["-a", ref["inputs"][0], "-p", ref["inputs"][1], "-o", d / f"x.1.{sc['out_fmt']}"] + (["--write-log"] if sc["log"] else ["--no-write-log"]) \
         + (["--clobber"] if sc["clobber"] else ["--no-clobber"])
     r = C.guarded(lambda _: run_inproc(args), None, 60.0)
@@ -201,7 +208,12 @@ def clobber_case(sc):
             rc = rc or 98
     after = snapshot(d)
     after_n = snapshot(d, norm=[str(d)])
-    t = {"tid": sc["tid"], "cfg": sc["cfg"] + "/" + sc["in_fmt"] + "->" + sc["out_fmt"] + ("/log" if sc["log"] else "/nolog") + ("/empty-files" if sc.get("empty") else "") + ("/after-an-earlier-run" if sc.get("rerun") else "") + ("/same-content" if sc.get("same") else ""), "outputs": outputs,
+    if sc.get("dangling"):
+        # unchanged = still a link to nothing, and nothing was created behind it
+        for n in pre:
+            after[n] = "dangling-link" if os.path.islink(d / n) and not os.path.exists(d / n) and not os.listdir(d / "gone") else "written-through-link"
+        after.pop("gone", None)
+    t = {"tid": sc["tid"], "cfg": sc["cfg"] + "/" + sc["in_fmt"] + "->" + sc["out_fmt"] + ("/log" if sc["log"] else "/nolog") + ("/empty-files" if sc.get("empty") else "") + ("/after-an-earlier-run" if sc.get("rerun") else "") + ("/same-content" if sc.get("same") else "") + ("/dangling-links" if sc.get("dangling") else ""), "outputs": outputs,
          "pre": sc["pre"], "clobber": sc["clobber"], "exit": rc,
          "named": [i for i, n in enumerate(outputs, 1) if str(d / n) in text],
          "unchanged": [i for i, n in enumerate(outputs, 1) if n in before and after.get(n) == before[n]],
